@@ -18,7 +18,7 @@ TECHNIQUE = ('runtime monitoring: reference-model oracle (independent '
              'electron-balance rule + graph-edit applier on reference '
              'embeddings), products compared up to labelled-graph '
              'isomorphism')
-RULE = ('unimolecular rules from 26 hand-written edit templates plus a systematic family (every bond edit x every bond order x C-C/C-O/C-H/O-H/O-O with balancing radical edits) (H abstraction, scissions, '
+RULE = ('unimolecular rules from 30 hand-written edit templates (incl. non-commuting edit sequences) plus a systematic family (every bond edit x every bond order x C-C/C-O/C-H/O-H/O-O with balancing radical edits) (H abstraction, scissions, '
         'beta scission, 1,2-shift, recombination, bond-order increase / '
         'decrease / modify with radical compensation, dehydrogenation, set '
         'radicals) rendered with random layout, each also in unbalanced '
@@ -60,7 +60,8 @@ EXTRA = ['C1CC1', 'C1CCC1', 'CC1CC1', 'C1CO1', 'C=CC', 'CC=CC', 'C#CC',
          '[CH2]C[CH2]', '[CH2]CO', '[CH2]CC', 'C[CH]C', '[CH2][CH2]',
          '[CH2]C[O]', 'C[CH]O', 'CCCC', 'CC(C)C', 'CCO', 'COC', 'OCCO',
          'C=CC=C', 'CC=O', '[CH2]C=C', 'C[CH][CH2]', '[CH2]C([CH2])C',
-         '[CH][CH]', 'C[C][CH]', 'OO', 'COO', 'COOC', '[CH]C[CH]']
+         '[CH][CH]', 'C[C][CH]', 'OO', 'COO', 'COOC', '[CH]C[CH]', '[C]C',
+         '[C][C]', '[C]C[C]', 'C[C]']
 _pool = {}
 
 
